@@ -16,22 +16,41 @@ Record ttask := {
   tt_team : list nat;           (* the allocated resources, in the order written *)
   tt_deps : list sdep;
   tt_pin : option Z;
-  tt_lb : Z
+  tt_lb : Z;
+  tt_limits : list nat          (* limits of this task and of its ancestors *)
 }.
 
 Record tproject := {
   tp_tasks : list ttask;
   tp_res : list sres;
+  tp_limits : list slimit;
   tp_upper : nat;
   tp_G : Z
 }.
 
 Definition dttask : ttask := {| tt_leaf := true; tt_leaves := []; tt_prio := 0%Z; tt_mile := true; tt_effort := 0; tt_team := [];
-                                tt_deps := []; tt_pin := None; tt_lb := 0%Z |}.
+                                tt_deps := []; tt_pin := None; tt_lb := 0%Z; tt_limits := [] |}.
 Definition ttask_of (p : tproject) (t : nat) : ttask := nth t (tp_tasks p) dttask.
 Definition tres_of (p : tproject) (r : nat) : sres := nth r (tp_res p) dsres.
+Definition tlim_of (p : tproject) (l : nat) : slimit := nth l (tp_limits p) dslim.
 
+(* limits count bookings (as in Model/SubSlot.v); [extra] are the tentative bookings of the members of the team that
+   were checked before (TaskScenario._countTentativeBooking) *)
+Definition tcounts (p : tproject) (l : nat) (b : nat * nat * nat) : bool :=
+  let '(t, r, _) := b in
+  (existsb (Nat.eqb l) (sr_limits (tres_of p r)))
+  || (existsb (Nat.eqb l) (tt_limits (ttask_of p t))
+      && match sl_only (tlim_of p l) with None => true | Some r' => Nat.eqb r' r end).
 
+Definition tusage (p : tproject) (events : list (nat * nat * nat)) (l : nat) (k : Z) : nat :=
+  length (filter (fun b => tcounts p l b && Z.eqb (sl_period (tlim_of p l) (snd b)) k) events).
+
+Definition tlimits_of (p : tproject) (t r : nat) : list nat :=
+  sr_limits (tres_of p r)
+  ++ filter (fun l => match sl_only (tlim_of p l) with None => true | Some r' => Nat.eqb r' r end) (tt_limits (ttask_of p t)).
+
+Definition tlimits_ok (p : tproject) (events : list (nat * nat * nat)) (t r slot : nat) : bool :=
+  forallb (fun l => (tusage p events l (sl_period (tlim_of p l) slot) <? sl_value (tlim_of p l))%nat) (tlimits_of p t r).
 
 Definition tdates (p : tproject) (st : sstate) (t : nat) : option (Z * Z) :=
   if tt_leaf (ttask_of p t) then sleaf_dates st t else sspan st (tt_leaves (ttask_of p t)).
@@ -61,6 +80,17 @@ Definition member_available (p : tproject) (st : sstate) (slot r : nat) : bool :
   let c := cells st r slot in
   sr_work (tres_of p r) slot && negb (Qle_bool (inject_Z (tp_G p) - used c) tol_avail) && negb (refused c).
 
+(* the team gate: every member available and within its limits, each counted while the next one is checked *)
+Fixpoint team_gate (p : tproject) (st : sstate) (t slot : nat) (events : list (nat * nat * nat)) (team : list nat) : bool :=
+  match team with
+  | [] => true
+  | r :: tl => member_available p st slot r && tlimits_ok p events t r slot
+               && team_gate p st t slot ((t, r, slot) :: events) tl
+  end.
+
+
+
+
 (* the part of the slot that is free for every member (the offset counts as used in the first slot) *)
 Fixpoint common_secs (G o : Q) (st : sstate) (slot : nat) (team : list nat) : option Q :=
   match team with
@@ -86,11 +116,12 @@ Fixpoint book_members (p : tproject) (t : nat) (off : Q) (first : bool) (cap : o
         let c1 := if first then step G c0 (Offset off) else c0 in
         let a := G - used c1 in
         let c2 := step G c1 (Book t cap) in
-        if Qle_bool a tol_avail || Nat.eqb (length (entries c2)) (length (entries c1)) then
+        if Qle_bool a tol_avail || Nat.eqb (length (entries c2)) (length (entries c1))
+           || negb (tlimits_ok p (sbooked st) t r slot) then
           book_members p t off first cap slot tl (set_cell st r slot c1)
         else
           let amount := match cap with Some m => Qmin a m | None => a end in
-          let '(st', l) := book_members p t off first cap slot tl (set_cell st r slot c2) in
+          let '(st', l) := book_members p t off first cap slot tl (note_booking (set_cell st r slot c2) t r slot) in
           (st', (r, amount, used c1) :: l)
       else book_members p t off first cap slot tl st
   end.
@@ -108,7 +139,7 @@ Fixpoint twalk (p : tproject) (t : nat) (team : list nat) (e need off : Q) (fuel
       let G := inject_Z (tp_G p) in
       let first := Qeq_bool done 0 in
       let multi := match team with _ :: _ :: _ => true | _ => false end in
-      if multi && negb (forallb (member_available p st slot) team) then
+      if multi && negb (team_gate p st t slot (sbooked st) team) then
         twalk p t team e need off fuel' (S slot) done start st               (* the team gate: all or nobody *)
       else
         let cap := if multi then common_secs G (if first then off else 0) st slot team else None in
